@@ -216,6 +216,11 @@ class P(EngProp):
             if all(x is None for x in names):
                 names[0] = "a"
             src = "^" + dl.join(("(?P<%s>%s)" % (nm, cls)) if nm else "(%s)" % cls for nm in names)
+            if rng.random() < 0.4:
+                # a named group that takes part in the match only for some lines (an optional group, an alternation): it is exposed with an
+                # empty value when it does not
+                names = ["a", "c"]
+                src = rng.choice(["^(?P<a>%s)(?:%s(?P<c>[0-9]+))?" % (cls, dl), "^(?:(?P<a>[a-z]+)|(?P<c>[0-9/]+))"])
             src_go = src.replace("\\ ", " ").replace("\\,", ",").replace("\\-", "-")
             sid = 1
             st = g.st_regexp(sid, src_go, names)
@@ -232,7 +237,7 @@ class P(EngProp):
                     sepfields = r["line"].decode().split(self.delim.strip() if self.delim.strip() else " ")
                     for i, nm in enumerate(names):
                         if nm:
-                            d[B(nm)] = B(m.group(i + 1))
+                            d[B(nm)] = B(m.group(i + 1) or "")
                 else:
                     tbl.append((r["line"], None))
                 exp.append((r, r["line"], d))
